@@ -28,12 +28,17 @@ let snapshot pl (s : st) =
   let blk = List.fold_left (fun a nd -> a + int_of_nat nd.n_blk) 0 s.s_nodes in
   let mp = List.fold_left (fun a nd -> a + (match nd.n_chunk with Some _ -> 1 | None -> 0)) 0 s.s_nodes in
   let fo = List.fold_left (fun a f -> a + (if f.f_open && not f.f_pad then 1 else 0)) 0 s.s_files in
-  Printf.sprintf "o%d k%d c%d p%d u%d b%s r%s d%d e%d s%d rf%d bl%d mp%d hq%d fo%d mb%d mu%d t%d"
+  (* queued piece indices in queue order; per chunk-list node references:blocking:mapped ('.' = free) *)
+  let q = if s.s_hq = [] then "-" else String.concat "," (List.map (fun (i, _) -> string_of_int (int_of_nat i)) s.s_hq) in
+  let nd = if s.s_nodes = [] then "-" else String.concat "" (List.map (fun nd ->
+      let r = int_of_nat nd.n_refs and b = int_of_nat nd.n_blk and m = (match nd.n_chunk with Some _ -> 1 | None -> 0) in
+      if r = 0 && b = 0 && m = 0 then "." else Printf.sprintf "[%d:%d:%d]" r b m) s.s_nodes) in
+  Printf.sprintf "o%d k%d c%d p%d u%d b%s r%s d%d e%d s%d rf%d bl%d mp%d hq%d fo%d mb%d mu%d t%d q%s nd%s"
     (if s.s_open then 1 else 0) (if is_checking s then 1 else 0) (if is_checked s then 1 else 0)
     (int_of_nat s.s_pos) (match s.s_out with None -> -1 | Some k -> int_of_nat k)
     (bits_str s.s_bits) (bits_str (Some s.s_ranges))
     (if s.s_delay then 1 else 0) (if s.s_errno then 1 else 0) (if s.s_storerr then 1 else 0)
-    refs blk mp (List.length s.s_hq) fo (int_of_nat s.s_mem) (int_of_nat s.s_mem * pl) (if s.s_retry then 1 else 0)
+    refs blk mp (List.length s.s_hq) fo (int_of_nat s.s_mem) (int_of_nat s.s_mem * pl) (if s.s_retry then 1 else 0) q nd
 
 let disk_token (f : fnode) =
   if f.f_pad then "P" else
